@@ -229,6 +229,8 @@ func subproto(c *vh.Ctx, m *vh.Model) {
 			c.Eval(fmt.Sprintf("handleMsg/malformed code=%d", code), key)
 		}
 	}
+	// last: these probes import a block (a valid NewBlock) and so change the chain the cases above rely on
+	messageDecodeProbes(c, m, pm, run)
 }
 
 func rlpListHeader(n int) []byte {
